@@ -46,6 +46,13 @@ def to_array(eng, v: VSeq):
     return a
 
 
+def arr_off(eng, v: VSeq):
+    """(array, offset) with v[k] == array[offset + k] on the index range of v."""
+    if v.arr is not None:
+        return v.arr, v.off
+    return to_array(eng, v), z3.IntVal(0)
+
+
 def seqarg(eng, v):
     v = eng.deref(v)
     if isinstance(v, VChunks):
@@ -98,8 +105,8 @@ def le128_unfold(eng, A, lo, hi, depth=1):
 @spec("le128", le128_conc, "sum of (b[k] & 0x7f) << 7*(k-lo) for lo <= k < hi")
 def le128_sym(eng, b, lo, hi):
     b = seqarg(eng, b)
-    A = to_array(eng, b)
-    lo_t, hi_t = as_int(eng, lo), as_int(eng, hi)
+    A, off = arr_off(eng, b)
+    lo_t, hi_t = z3.simplify(as_int(eng, lo) + off), z3.simplify(as_int(eng, hi) + off)
     if not eng.goal_mode:
         # assumed occurrence: the term only (its unfolding is added when a goal mentions it)
         t = le128_f(A, lo_t, hi_t)
@@ -145,11 +152,11 @@ def join_conc(x):
 def join_sym(eng, x):
     v = eng.deref(x)
     if isinstance(v, VChunks):
-        return VSeq(v.join.at, v.join.n, "bytes", v.join.arr)
+        return VSeq(v.join.at, v.join.n, "bytes", v.join.arr, "int", v.join.off)
     if isinstance(v, VSeq):
         if getattr(v, "untyped_empty", False):
             return seq_const(b"")
-        return VSeq(v.at, v.n, "bytes", v.arr)
+        return VSeq(v.at, v.n, "bytes", v.arr, "int", v.off)
     raise EngineError(f"join of {v!r}")
 
 
@@ -241,13 +248,13 @@ def msb_end_conc(b, i):
 @spec("msb_end", msb_end_conc, "index after the first byte < 128 at or after i")
 def msb_end_sym(eng, b, i):
     b = seqarg(eng, b)
-    A = to_array(eng, b)
-    it = as_int(eng, i)
+    A, off = arr_off(eng, b)
+    it = z3.simplify(as_int(eng, i) + off)
     t = msb_end_f(A, it)
     # one-step unfolding of the definition
     eng.assume(z3.Implies(A[it] < 128, t == it + 1))
     eng.assume(z3.Implies(A[it] >= 128, t == msb_end_f(A, it + 1)))
-    return VInt(t)
+    return VInt(z3.simplify(t - off))
 
 
 @spec("set_field", None, "harness helper: assign a (ghost) field of an object")
@@ -297,3 +304,31 @@ def upred_sym(eng, name, *args):
     from .values import Val
     f = z3.Function("up_" + name.s, *([Val] * len(args) + [z3.BoolSort()]))
     return VBool(f(*[to_val(eng, a) for a in args]))
+
+
+# ----------------------------------------------------------------------------------------------
+# ofsval(b, lo, hi): value of the OFS_DELTA base-offset encoding b[lo:hi]  (hi > lo)
+#   ofsval(b, lo, lo+1) = b[lo] % 128 ;  ofsval(b, lo, hi) = (ofsval(b, lo, hi-1) + 1) * 128 + b[hi-1] % 128
+# ----------------------------------------------------------------------------------------------
+ofsval_f = z3.Function("ofsval", ArrS, IntS, IntS, IntS)
+
+
+@spec("ofsval", None, "value of the OFS_DELTA offset encoding b[lo:hi]")
+def ofsval_sym(eng, b, lo, hi):
+    b = seqarg(eng, b)
+    A, off = arr_off(eng, b)
+    lo_t, hi_t = z3.simplify(as_int(eng, lo) + off), z3.simplify(as_int(eng, hi) + off)
+    t = ofsval_f(A, lo_t, hi_t)
+    # one-step unfolding of the definition
+    eng.assume(z3.Implies(hi_t == lo_t + 1, t == A[lo_t] % 128))
+    eng.assume(z3.Implies(hi_t > lo_t + 1, t == (ofsval_f(A, lo_t, hi_t - 1) + 1) * 128 + A[hi_t - 1] % 128))
+    if "ofsval_frame" not in eng.disabled_facts:
+        cur = A
+        for _ in range(3):       # LEMMA ofsval_store_frame: a store outside [lo, hi) does not change the value
+            if not z3.is_store(cur):
+                break
+            base, idx, _v = cur.children()
+            for h in (hi_t, hi_t - 1):
+                eng.assume(z3.Implies(z3.Or(idx >= h, idx < lo_t), ofsval_f(cur, lo_t, h) == ofsval_f(base, lo_t, h)))
+            cur = base
+    return VInt(t)
